@@ -229,3 +229,89 @@ func cipherLooksLikeHeader(c *Ctx, who string) {
 		c.Count(id, true, "stream:cipher-header")
 	}
 }
+
+// waitingReadCoalesced: a read is waiting on a plaintext connection when pair-verify negotiates the session; the
+// controller's first encrypted request is longer than one frame and arrives in ONE segment (or: its second frame arrives
+// in two parts with a read timeout in between, as when net/http aborts its background read). Everything the controller
+// sent is delivered, in order: what the connection has read ahead while it served the waiting read is not lost.
+func waitingReadCoalesced(c *Ctx, who string) {
+	for i := 0; i < c.Pick(6, 60); i++ {
+		id := c.CaseID("waiting-read-coalesced", i)
+		if c.Skip(id) {
+			continue
+		}
+		r := c.CaseRng("waiting-read-coalesced", i)
+		var key [32]byte
+		copy(key[:], randBytes(r, 32))
+		peer := newRefControllerSession(key[:])
+		request := randBytes(r, 1100+r.Intn(2500))
+		frames := peer.Encrypt(request)
+		raw := newHoConn()
+		ctx := hap.NewContextForSecuredDevice(nil)
+		conn := hap.NewConnection(raw, ctx)
+		sess := ctx.GetSessionForConnection(raw)
+		sec, _ := crypto.NewSecureSessionFromSharedKey(key)
+		type rd struct {
+			b   []byte
+			err error
+		}
+		results := make(chan rd, 64)
+		bufSize := []int{1, 64, 4096}[i%3]
+		stop := make(chan struct{})
+		go func() {
+			for {
+				buf := make([]byte, bufSize)
+				n, err := conn.Read(buf)
+				results <- rd{buf[:n], err}
+				select {
+				case <-stop:
+					return
+				default:
+				}
+				if err != nil {
+					return
+				}
+			}
+		}()
+		select {
+		case <-raw.started:
+		case <-time.After(2 * time.Second):
+		}
+		sess.SetCryptographer(sec)
+		responseWritten(ctx, raw)
+		how := "all frames in one segment"
+		if i%2 == 0 {
+			raw.push(frames)
+		} else {
+			how = "the first frame and a part of the second in one segment, the rest later"
+			cut := 1024 + 18 + 1 + r.Intn(len(frames)-1024-18-1)
+			raw.push(frames[:cut])
+			time.Sleep(5 * time.Millisecond)
+			raw.push(frames[cut:])
+		}
+		var got []byte
+		var rerr error
+		deadline := time.After(4 * time.Second)
+	collect:
+		for len(got) < len(request) {
+			select {
+			case x := <-results:
+				got = append(got, x.b...)
+				if x.err != nil {
+					rerr = x.err
+					break collect
+				}
+			case <-deadline:
+				break collect
+			}
+		}
+		close(stop)
+		in := map[string]interface{}{"read_waiting_when_the_cryptographer_is_negotiated": true, "read_buffer": bufSize, "request_bytes": len(request), "delivery": how}
+		if rerr != nil || !bytes.Equal(got, request) {
+			c.Violate(who+" bytes sent by the controller under the newly negotiated session do not all arrive (read was already waiting; more than one frame was delivered at once)", id, in,
+				fmt.Sprintf("%d request bytes", len(request)), fmt.Sprintf("%d bytes, err=%v", len(got), rerr))
+		}
+		raw.Close()
+		c.Count(id, true, "stream:waiting-read-coalesced")
+	}
+}
